@@ -134,6 +134,9 @@ func genC11(c *Ctx) {
 						if s.kind == "nil" {
 							src = fmt.Sprintf("%s[%s:%s]", arrSrc, as, bsrc)
 						}
+						if !c.Mine() {
+							continue
+						}
 						o := c.It.Run(src, "")
 						impl2 := "?"
 						switch o.Kind {
